@@ -1,6 +1,7 @@
 //! mqv: property-based testing / fuzzing harness for akasamq/mqtt-proto (see /verif/DESIGN.md).
 pub mod checks;
 pub mod fam;
+pub mod fuzzsupport;
 pub mod gen;
 pub mod json;
 pub mod kf;
